@@ -51,6 +51,10 @@ type report struct {
 	Problems     []string       `json:"problems"`
 	Degraded     []string       `json:"degraded"`
 	overlay      map[string]string
+	scopeType    string // the struct type that holds `values` and the mutex (Env)
+	scopeFile    string
+	scopeMuRW    bool
+	tableLock    map[string]string
 }
 
 func main() {
@@ -148,12 +152,22 @@ func run(repo, out string, rep *report) error {
 			continue
 		}
 		ast.Inspect(fi.f, func(n ast.Node) bool {
-			st, ok := n.(*ast.StructType)
+			ts, ok := n.(*ast.TypeSpec)
+			if !ok {
+				return true
+			}
+			st, ok := ts.Type.(*ast.StructType)
 			if !ok {
 				return true
 			}
 			hasValues := false
 			mu := ""
+			muIsRW := true
+			type muField struct {
+				name string
+				rw   bool
+			}
+			var mus []muField
 			for _, fld := range st.Fields.List {
 				for _, nm := range fld.Names {
 					if nm.Name == "values" {
@@ -167,12 +181,42 @@ func run(repo, out string, rep *report) error {
 						}
 					}
 				}
-				if isSyncMutex(fld.Type) && mu == "" && len(fld.Names) > 0 {
-					mu = fld.Names[0].Name
+				if isSyncMutex(fld.Type) && len(fld.Names) > 0 {
+					isRW := true
+					if se, ok := fld.Type.(*ast.SelectorExpr); ok && se.Sel.Name == "Mutex" {
+						isRW = false
+					}
+					for _, nm := range fld.Names {
+						mus = append(mus, muField{nm.Name, isRW})
+					}
+					if mu == "" {
+						mu, muIsRW = fld.Names[0].Name, isRW
+					}
 				}
 			}
 			if hasValues && mu != "" {
 				rep.MutexField = mu
+				rep.scopeType, rep.scopeFile, rep.scopeMuRW = ts.Name.Name, fi.path, muIsRW
+				// which lock guards which table: a lock named after a table guards that table, else the first one
+				rep.tableLock = map[string]string{}
+				for _, table := range []string{"values", "types"} {
+					pick := muField{mu, muIsRW}
+					stem := strings.TrimSuffix(table, "s")
+					for _, m := range mus {
+						if strings.Contains(strings.ToLower(m.name), stem) {
+							pick = m
+							break
+						}
+					}
+					if pick.rw {
+						rep.tableLock[table] = "&x." + pick.name
+					} else {
+						rep.tableLock[table] = "x." + pick.name + ".RW()"
+					}
+				}
+				if len(mus) > 1 {
+					rep.Degraded = append(rep.Degraded, fmt.Sprintf("the scope type has %d locks; lockset probes assume values -> %s, types -> %s", len(mus), rep.tableLock["values"], rep.tableLock["types"]))
+				}
 			}
 			return true
 		})
@@ -305,6 +349,13 @@ func (rw *rewriter) rewrite() {
 		}
 	}
 
+	// the scope type tells the lockset probes where its lock is
+	if rw.fi.pkg == "env" && rw.rep.scopeType != "" && rw.fi.path == rw.rep.scopeFile {
+		n := len(rw.fi.src)
+		rw.edits = append(rw.edits, edit{n, n, "\nfunc (x *" + rw.rep.scopeType + ") SimLock(table string) *simrt.RWMutex { if x == nil { return nil }; if table == \"types\" { return " + rw.rep.tableLock["types"] + " }; return " + rw.rep.tableLock["values"] + " }\n"})
+		rw.usesSim = true
+	}
+
 	// R6 (after R5: a yield inserted in front of a select statement must sort before its replacement)
 	rw.nativeSelects(f)
 
@@ -411,6 +462,7 @@ type access struct {
 	x     string
 	write bool
 	pos   token.Pos
+	table string
 }
 
 func (rw *rewriter) walkList(list []ast.Stmt) {
@@ -429,7 +481,9 @@ func (rw *rewriter) walkList(list []ast.Stmt) {
 			}
 			seen[key] = true
 			site := rw.where(a.pos)
-			fmt.Fprintf(&b, "simrt.Access(&%s.%s, %v, %q); ", a.x, rw.rep.MutexField, a.write, site)
+			// AccessOf resolves the scope's mutex at run time (through the SimLock method added to Env below): a
+			// struct of another type that happens to have a field called values or types is not a scope and is skipped
+			fmt.Fprintf(&b, "simrt.AccessOf(%s, %q, %v, %q); ", a.x, a.table, a.write, site)
 			rw.rep.AccessProbes++
 			rw.rep.AccessSites = append(rw.rep.AccessSites, fmt.Sprintf("%s %s write=%v", site, a.x, a.write))
 		}
@@ -459,7 +513,7 @@ func (rw *rewriter) note(e ast.Expr, write bool, acc *[]access) bool {
 		return false
 	}
 	if !fresh {
-		*acc = append(*acc, access{x, write, e.Pos()})
+		*acc = append(*acc, access{x, write, e.Pos(), e.(*ast.SelectorExpr).Sel.Name})
 	}
 	return true
 }
